@@ -9,6 +9,7 @@ import datetime
 import enum
 import inspect
 import re
+import threading
 import time
 from decimal import Decimal
 from fractions import Fraction
@@ -238,6 +239,96 @@ def w_decimals(ctx: core.Ctx, arg):
                         {'xml_in': s, 'py': repr(py), 'xml_out': out})
 
 
+def w_decimal_context(ctx: core.Ctx, arg):
+    """the conversions are exact whatever the arithmetic context of the calling thread is (decimal.localcontext / a changed DefaultContext that
+    new threads inherit): the converters must not do context-dependent arithmetic (rounding to prec digits)."""
+    import decimal
+    from sdc11073.xml_types.dataconverters import DecimalConverter as D
+    rng = ctx.rng('decctx', arg['i'])
+    values = ['120.123456789', '1234567.25', '-0.000000123456789', '999999999999999999', '0.123456789012345678', '100', '42.00', '-7']
+    for _ in range(arg['n']):
+        nd = rng.randrange(1, 19)
+        digits = str(rng.randrange(10 ** (nd - 1), 10 ** nd))
+        scale = rng.randrange(0, nd + 1)
+        values.append(_plain(rng.choice(['', '-']), digits, scale))
+
+    def run(prec, where):
+        for sv in values:
+            true_val = Fraction(Decimal(sv))   # construction from a string is exact in every context
+            try:
+                py = D.to_py(sv)
+                out = D.to_xml(py)
+            except Exception as ex:  # noqa: BLE001
+                ctx.witness('dec.context_dependent', f'decimal conversion raises under a decimal context with prec={prec}', {'xml': sv, 'ex': repr(ex)[:200]})
+                continue
+            ctx.count(f'dec.context.{where}.prec{prec}')
+            if Fraction(py) != true_val or Fraction(Decimal(out)) != true_val or 'E' in out:
+                ctx.witness('dec.context_dependent', f'decimal conversion depends on the decimal context of the thread (prec={prec}, {where}): the value changes',
+                            {'xml_in': sv, 'py': repr(py), 'xml_out': out})
+                return
+    for prec in (3, 5, 9, 17, 28):
+        with decimal.localcontext() as c:
+            c.prec = prec
+            run(prec, 'localcontext')
+        ctx.case(('decctx', prec))
+    # a worker thread inherits decimal.DefaultContext
+    saved = decimal.DefaultContext.prec
+    try:
+        decimal.DefaultContext.prec = 6
+        th = threading.Thread(target=run, args=(6, 'thread_default_context'))
+        th.start()
+        th.join(60)
+    finally:
+        decimal.DefaultContext.prec = saved
+
+
+def w_decimal_users(ctx: core.Ctx, arg):
+    """every place that writes an xsd:decimal must go through the converter: attribute, list attribute (pm:RealTimeValueType), element text.
+    Values as applications build them: Decimal('1E+2'), Decimal(100).normalize(), Decimal('1E-7'), results of quantize / arithmetic."""
+    from lxml import etree
+    from sdc11073.xml_types import pm_types
+    rng = ctx.rng('decusers', arg['i'])
+    tricky = [Decimal('1E+2'), Decimal(100).normalize(), Decimal('1E-7'), Decimal('2.50E+3'), Decimal('0E-9'), Decimal('-1E+1'), Decimal(5).scaleb(3),
+              Decimal('123.4500'), Decimal('1.0') * Decimal('1E+3'), Decimal('7E-12')]
+    for case in range(arg['n']):
+        vals = [rng.choice(tricky) if rng.random() < 0.6 else Decimal(rng.randrange(-10 ** 6, 10 ** 6)).scaleb(rng.randrange(-6, 4)) for _ in range(rng.randrange(1, 6))]
+        # (a) list attribute: SampleArrayValue/@Samples
+        sa = pm_types.SampleArrayValue()
+        sa.Samples = list(vals)
+        node = sa.as_etree_node(etree.QName('urn:vf', 'v'), {})
+        text = node.get('Samples')
+        ctx.count('dec.users.samples_lists')
+        ctx.case(('decusers', 'samples', tuple('E' in str(v) for v in vals)))
+        if text is None or 'E' in text or 'e' in text or not all(RX_DECIMAL.match(t) for t in text.split()):
+            ctx.witness('dec.exponent_written.list_attribute', 'a list of decimals (Samples) is written with exponent notation / not as xsd:decimal lexicals',
+                        {'values': [repr(v) for v in vals], 'xml': text})
+        else:
+            try:
+                back = pm_types.SampleArrayValue.from_node(node).Samples
+            except Exception as ex:  # noqa: BLE001
+                ctx.witness('dec.users.read_back_raises', 'the library cannot read the decimal list it wrote', {'xml': text, 'ex': repr(ex)[:200]})
+                back = None
+            if back is not None and [Fraction(b) for b in back] != [Fraction(v) for v in vals]:
+                ctx.witness('dec.value_changed.list_attribute', 'a list of decimals changes on Python->XML->Python', {'values': [repr(v) for v in vals], 'xml': text})
+        # (b) attribute: Range/@Lower .. , NumericMetricValue/@Value
+        v = vals[0]
+        for cls, member in ((pm_types.Range, 'Lower'), (pm_types.Range, 'StepWidth'), (pm_types.NumericMetricValue, 'Value')):
+            obj = cls()
+            setattr(obj, member, v)
+            try:
+                node = obj.as_etree_node(etree.QName('urn:vf', 'v'), {})
+            except Exception as ex:  # noqa: BLE001
+                ctx.count(f'dec.users.write_refused.{type(ex).__name__}')
+                continue
+            text = node.get(member)
+            ctx.count('dec.users.attributes')
+            if text is None or 'E' in text or 'e' in text or not RX_DECIMAL.match(text):
+                ctx.witness('dec.exponent_written.attribute', f'{cls.__name__}.{member} is written with exponent notation / not as xsd:decimal lexical',
+                            {'value': repr(v), 'xml': text})
+            elif Fraction(Decimal(text)) != Fraction(v):
+                ctx.witness('dec.value_changed.attribute', f'{cls.__name__}.{member} changes its value when written', {'value': repr(v), 'xml': text})
+
+
 # =============================================================================================
 # durations
 # =============================================================================================
@@ -412,6 +503,24 @@ def w_dates(ctx: core.Ctx, arg):
                 ctx.witness('date.py_xml_py', 'date/time value does not round-trip (py->xml->py)', {'xml': s})
         if i == 0:
             ctx.sample({'kind': 'date union', 'xml': s, 'parsed': repr(info), 'out': out})
+        # Python -> XML -> Python with a value the application constructs itself (seconds as int or float, whole or fractional)
+        if shape == 3:
+            sec_variants = [se, float(se)] + ([float(f'{se}.{frac}')] if frac else [])
+            for sec in sec_variants:
+                try:
+                    built = isoduration.XsdDateInformation(year, month, day, hh, mi, sec, tz_info=info.tz_info)
+                    text = str(built)
+                    back = isoduration.parse_date_time(text)
+                except Exception as ex:  # noqa: BLE001
+                    ctx.witness('date.py_xml_py', 'a constructed date/time value cannot be written and read back',
+                                {'fields': [year, month, day, hh, mi, repr(sec)], 'ex': repr(ex)[:200]})
+                    continue
+                ctx.count(f'date.py_xml_py.constructed.{type(sec).__name__}')
+                same = (back.year, back.month, back.day, back.hour, back.minute) == (year, month, day, hh, mi) and \
+                    abs(float(back.second) - float(sec)) < 1e-6 and back.tz_info == built.tz_info
+                if not same:
+                    ctx.witness('date.py_xml_py', 'a constructed date/time value does not round-trip (py->xml->py)',
+                                {'fields': [year, month, day, hh, mi, repr(sec)], 'xml': text, 'read_back': repr(back)})
     negatives = ['', '99', '999', '02020', '2020-13', '2020-00', '2020-1', '2020-01-32', '2020-01-00', '2020-01-01T', '2020-01-01T25:00:00',
                  '2020-01-01T24:00:01', '2020-01-01T23:60:00', '2020-01-01T23:59:60', '2020-01-01T1:00:00', '2020-01-01 10:00:00',
                  '2020-01-01T10:00', '2020-01-01T10:00:00+15:00', '2020-01-01T10:00:00+14:01', '2020-01-01T10:00:00+1:00',
@@ -622,6 +731,8 @@ def run(ctx: core.Ctx):
         jobs.append(('w_timestamps_py', {'i': k, 'n': 20_000 if q else 200_000}))
     for k in range(4 if q else 16):
         jobs.append(('w_decimals', {'i': k, 'per_shape': 3 if q else 80, 'n_py': 5_000 if q else 100_000}))
+        jobs.append(('w_decimal_context', {'i': k, 'n': 200 if q else 5000}))
+        jobs.append(('w_decimal_users', {'i': k, 'n': 300 if q else 10000}))
     for k in range(2 if q else 16):
         jobs.append(('w_durations', {'i': k, 'n': 10_000 if q else 100_000}))
         jobs.append(('w_dates', {'i': k, 'n': 10_000 if q else 100_000}))
